@@ -195,6 +195,8 @@ def contains(eng, container, item):
 
 # --------------------------------------------------------------------------------------- attributes
 def getattr(eng, obj, attr):
+    if obj is None:
+        raise ModelRaise("AttributeError", [attr], cls=AttributeError)
     if isinstance(obj, SObj):
         if attr in obj.attrs:
             return obj.attrs[attr]
